@@ -912,11 +912,14 @@ impl<'v, 'a, 'e: 'a> Evaluator<'v, 'a, 'e> {
     }
 
     pub(crate) fn gen_bc_profile(&mut self) -> crate::Result<ProfileData> {
-        self.eval_instrumentation.bc_profile.gen_bc_profile()
+        // Taking the data switches the profile off: the instrumentation flag must follow.
+        self.eval_instrumentation
+            .change(|v| v.bc_profile.gen_bc_profile())
     }
 
     pub(crate) fn gen_bc_pairs_profile(&mut self) -> crate::Result<ProfileData> {
-        self.eval_instrumentation.bc_profile.gen_bc_pairs_profile()
+        self.eval_instrumentation
+            .change(|v| v.bc_profile.gen_bc_pairs_profile())
     }
 
     #[cold]
